@@ -297,11 +297,14 @@ def execute(ch, cfg):
             state["nt"] = True
             res.ev("C17.timeout")
             retx = [s for s in sent[n0:] if s[3]]
+            # data handed over by the application while the clock advanced is accounted first: its timers may be due now too
+            check_new_segments(n0, "before timer expiry", before=when)
+            if bad:
+                return
             due = sorted(s for s in ref.timers if ref.timers[s] == when)
             if sorted(s[1] for s in retx) != due or any(not close(s[0], when) for s in retx):
                 bad.append(("C17.timeout", tag + ":timer-expiry-did-not-retransmit-the-segment", "history %r: at t=%r retransmitted %r, timers due %r" % (hist, when, retx, due)))
                 return
-            check_new_segments(n0, "before timer expiry", before=when)     # data handed over by the application meanwhile
             # several timers due at one instant fire in the order their expiries were scheduled (kernel order), which the
             # statement does not fix: the reference follows the observed order (each expiry doubles the RTO the next one uses)
             for s in [r[1] for r in retx]:
